@@ -417,6 +417,15 @@ func (r *runner) produced(c *Case, wg *kernels.WorkGroup, nreg *int) {
 	}
 }
 
+// filterGuard counts the candidates a builder offers to its filter after SetKernel.
+type filterGuard struct {
+	calls, limit int
+	armed        bool
+}
+
+// runaway is the panic value of the guard: an enumeration of the real code that would not end.
+type runaway struct{ msg string }
+
 func (r *runner) group(c *Case, l launch) {
 	f := ab.Rec{"k": "none"}
 	if l.gpu > 0 {
@@ -424,22 +433,49 @@ func (r *runner) group(c *Case, l launch) {
 	}
 	r.emit("Kernel", ab.Rec{"g": t3u32(c.G), "s": t3u16(c.S), "f": f})
 	nreg := 0
+	// An enumeration that does not end is decided structurally, never by wall clock: the grid has
+	// `total` work-groups, so (a) a builder can offer its filter at most `total` candidates after
+	// SetKernel - the guard around the real closure panics with a runaway value beyond that, and
+	// (b) a drain stops after NumWG()+2 work-groups; the surplus ones are logged like any other and
+	// have no matching action in GridTrace (more than announced / outside the grid).
+	total := numWGDim(c.G[0], c.S[0]) * numWGDim(c.G[1], c.S[1]) * numWGDim(c.G[2], c.S[2])
 	newBuilder := func() kernels.GridBuilder {
 		gb := kernels.NewGridBuilder()
-		gb.SetKernel(l.info)
+		info := l.info
+		g := &filterGuard{limit: total + 2}
+		if real := l.info.WGFilter; real != nil {
+			info.WGFilter = func(p *kernels.HsaKernelDispatchPacket, wg *kernels.WorkGroup) bool {
+				if g.armed {
+					g.calls++
+					if g.calls > g.limit {
+						panic(runaway{fmt.Sprintf("NextWG offered its filter %d work-group candidates (last id %d,%d,%d), the grid has %d",
+							g.calls, wg.IDX, wg.IDY, wg.IDZ, total)})
+					}
+				}
+				return real(p, wg)
+			}
+		}
+		gb.SetKernel(info)
+		g.armed = true
 		r.emit("Builder", ab.Rec{"numWG": gb.NumWG()})
 		return gb
 	}
 	switch c.Mode {
 	case "full":
 		gb := newBuilder()
-		for {
+		limit := gb.NumWG() + 2
+		ended := false
+		for n := 0; n < limit; n++ {
 			wg := gb.NextWG()
 			if wg == nil {
 				r.emit("Nil", ab.Rec{})
+				ended = true
 				break
 			}
 			r.produced(c, wg, &nreg)
+		}
+		if !ended {
+			r.emit("Unterminated", ab.Rec{"produced": limit, "numWG": gb.NumWG()})
 		}
 		r.emit("GroupEnd", ab.Rec{})
 	case "parts":
@@ -624,7 +660,11 @@ func (r *runner) runCase(i int, c *Case) {
 	defer func() {
 		if e := recover(); e != nil {
 			r.st.Panics++
-			r.emit("Panic", ab.Rec{"msg": fmt.Sprint(e)})
+			if ra, ok := e.(runaway); ok {
+				r.emit("Runaway", ab.Rec{"msg": ra.msg})
+			} else {
+				r.emit("Panic", ab.Rec{"msg": fmt.Sprint(e)})
+			}
 		}
 	}()
 	if c.Ver == 0 {
